@@ -12,10 +12,14 @@ import (
 	"flag"
 	"fmt"
 	"go/ast"
+	"go/importer"
 	"go/parser"
 	"go/printer"
 	"go/token"
+	"go/types"
+	"io"
 	"os"
+	"os/exec"
 	"path/filepath"
 	"reflect"
 	"strconv"
@@ -32,6 +36,9 @@ type rewriter struct {
 	selN      int
 	stmtYield bool
 	errs      []string
+	info      *types.Info         // nil: purely syntactic mode
+	mapRange  map[*ast.RangeStmt]bool
+	mapOnly   bool
 }
 
 func rt(name string) ast.Expr {
@@ -89,6 +96,9 @@ func isForeignChan(x ast.Expr) bool {
 }
 
 func (r *rewriter) expr(e ast.Expr) ast.Expr {
+	if r.mapOnly {
+		return e
+	}
 	switch x := e.(type) {
 	case *ast.ChanType:
 		r.usedRT = true
@@ -137,6 +147,12 @@ func (r *rewriter) recv2(c *ast.CallExpr) {
 }
 
 func (r *rewriter) stmt(s ast.Stmt) ast.Stmt {
+	if r.mapOnly {
+		if x, ok := s.(*ast.RangeStmt); ok && r.mapRange[x] {
+			return r.sortedRange(x)
+		}
+		return s
+	}
 	switch x := s.(type) {
 	case *ast.SendStmt:
 		r.usedRT = true
@@ -169,9 +185,50 @@ func (r *rewriter) stmt(s ast.Stmt) ast.Stmt {
 		}
 		return &ast.BlockStmt{List: append(pre, goCall)}
 	case *ast.RangeStmt:
-		// range over a channel cannot be recognised syntactically; if it occurs the rewritten file does not compile (UNDECIDED)
+		// range over a channel is not supported: if it occurs the rewritten file does not compile (UNDECIDED).
+		// range over a map: iterate in sorted key order, so that Go's randomised map iteration is not an unowned source of nondeterminism
+		if r.mapRange[x] {
+			return r.sortedRange(x)
+		}
 	}
 	return s
+}
+
+func (r *rewriter) sortedRange(x *ast.RangeStmt) ast.Stmt {
+	if x.Tok != token.DEFINE && x.Key != nil {
+		r.errs = append(r.errs, "range over a map with '=' is not supported")
+		return x
+	}
+	r.usedRT = true
+	r.selN++
+	keyName := fmt.Sprintf("verifrtK%d", r.selN)
+	mapName := fmt.Sprintf("verifrtM%d", r.selN)
+	var key ast.Expr = ast.NewIdent(keyName)
+	userKey := false
+	if id, ok := x.Key.(*ast.Ident); ok && id.Name != "_" {
+		key = ast.NewIdent(id.Name)
+		userKey = true
+	}
+	var pre []ast.Stmt
+	// v, ok := m[k]; if !ok { continue }
+	valName := "_"
+	if id, ok := x.Value.(*ast.Ident); ok && id.Name != "_" {
+		valName = id.Name
+	}
+	okName := fmt.Sprintf("verifrtOk%d", r.selN)
+	pre = append(pre, &ast.AssignStmt{Lhs: []ast.Expr{ast.NewIdent(valName), ast.NewIdent(okName)}, Tok: token.DEFINE, Rhs: []ast.Expr{&ast.IndexExpr{X: ast.NewIdent(mapName), Index: key}}})
+	pre = append(pre, &ast.IfStmt{Cond: &ast.UnaryExpr{Op: token.NOT, X: ast.NewIdent(okName)}, Body: &ast.BlockStmt{List: []ast.Stmt{&ast.BranchStmt{Tok: token.CONTINUE}}}})
+	if valName != "_" {
+		pre = append(pre, &ast.AssignStmt{Lhs: []ast.Expr{ast.NewIdent("_")}, Tok: token.ASSIGN, Rhs: []ast.Expr{ast.NewIdent(valName)}})
+	}
+	if userKey {
+		pre = append(pre, &ast.AssignStmt{Lhs: []ast.Expr{ast.NewIdent("_")}, Tok: token.ASSIGN, Rhs: []ast.Expr{key}})
+	}
+	loop := &ast.RangeStmt{Key: ast.NewIdent("_"), Value: key, Tok: token.DEFINE, X: call(rt("SortedKeys"), ast.NewIdent(mapName)), Body: &ast.BlockStmt{List: append(pre, x.Body.List...)}}
+	return &ast.BlockStmt{List: []ast.Stmt{
+		&ast.AssignStmt{Lhs: []ast.Expr{ast.NewIdent(mapName)}, Tok: token.DEFINE, Rhs: []ast.Expr{x.X}},
+		loop,
+	}}
 }
 
 // selectStmt rewrites a select (pre-order: its comm clauses are taken apart before the generic rewrites see them).
@@ -300,10 +357,20 @@ func (r *rewriter) node(n ast.Node) ast.Node {
 		return n
 	}
 	switch x := n.(type) {
+	case *ast.RangeStmt:
+		if r.info != nil {
+			if tv, ok := r.info.Types[x.X]; ok && tv.Type != nil {
+				if _, isMap := tv.Type.Underlying().(*types.Map); isMap {
+					r.mapRange[x] = true
+				}
+			}
+		}
 	case *ast.SelectStmt:
-		return r.selectStmt(x, nil)
+		if !r.mapOnly {
+			return r.selectStmt(x, nil)
+		}
 	case *ast.LabeledStmt:
-		if s, ok := x.Stmt.(*ast.SelectStmt); ok {
+		if s, ok := x.Stmt.(*ast.SelectStmt); ok && !r.mapOnly {
 			return r.selectStmt(s, x.Label)
 		}
 	case *ast.BlockStmt:
@@ -381,10 +448,14 @@ func (r *rewriter) node(n ast.Node) ast.Node {
 	return n
 }
 
-func instrument(fset *token.FileSet, path string, stmtYield bool) ([]byte, error) {
-	f, err := parser.ParseFile(fset, path, nil, parser.ParseComments)
-	if err != nil {
-		return nil, err
+func instrument(fset *token.FileSet, path string, stmtYield, mapOnly bool, f *ast.File, info *types.Info) ([]byte, error) {
+	syncShims := !mapOnly
+	if f == nil {
+		var err error
+		f, err = parser.ParseFile(fset, path, nil, parser.ParseComments)
+		if err != nil {
+			return nil, err
+		}
 	}
 	for _, cg := range f.Comments {
 		for _, c := range cg.List {
@@ -395,9 +466,12 @@ func instrument(fset *token.FileSet, path string, stmtYield bool) ([]byte, error
 	}
 	f.Comments = nil
 	f.Doc = nil
-	r := &rewriter{fset: fset, file: path, genRecv: map[*ast.CallExpr]bool{}, stmtYield: stmtYield}
+	r := &rewriter{fset: fset, file: path, genRecv: map[*ast.CallExpr]bool{}, stmtYield: stmtYield, info: info, mapRange: map[*ast.RangeStmt]bool{}, mapOnly: mapOnly}
 	// imports: sync -> vsync, sync/atomic -> vatomic
 	for _, im := range f.Imports {
+		if !syncShims {
+			break
+		}
 		p, _ := strconv.Unquote(im.Path.Value)
 		switch p {
 		case "sync":
@@ -450,6 +524,66 @@ func instrument(fset *token.FileSet, path string, stmtYield bool) ([]byte, error
 	return buf.Bytes(), nil
 }
 
+// exportLookup builds an importer over the export data `go list -export` produces for the packages' dependencies.
+func exportLookup(moduleDir string, pkgs []string) (types.Importer, *token.FileSet, error) {
+	args := append([]string{"list", "-export", "-deps", "-f", "{{.ImportPath}}\t{{.Export}}"}, pkgs...)
+	cmd := exec.Command("go", args...)
+	cmd.Dir = moduleDir
+	cmd.Env = append(os.Environ(), "GOFLAGS=-mod=mod")
+	var stderr bytes.Buffer
+	cmd.Stderr = &stderr
+	out, err := cmd.Output()
+	if err != nil {
+		return nil, nil, fmt.Errorf("go list -export: %v: %s", err, stderr.String())
+	}
+	exports := map[string]string{}
+	for _, line := range strings.Split(string(out), "\n") {
+		f := strings.Split(line, "\t")
+		if len(f) == 2 && f[1] != "" {
+			exports[f[0]] = f[1]
+		}
+	}
+	fset := token.NewFileSet()
+	lookup := func(path string) (io.ReadCloser, error) {
+		e, ok := exports[path]
+		if !ok {
+			return nil, fmt.Errorf("no export data for %s", path)
+		}
+		return os.Open(e)
+	}
+	return importer.ForCompiler(fset, "gc", lookup), fset, nil
+}
+
+// typeCheckDir parses and type-checks the package in dir (non-test files); returns the parsed files by path.
+func typeCheckDir(fset *token.FileSet, imp types.Importer, dir string) (map[string]*ast.File, *types.Info, error) {
+	ents, err := os.ReadDir(dir)
+	if err != nil {
+		return nil, nil, err
+	}
+	files := map[string]*ast.File{}
+	var list []*ast.File
+	for _, e := range ents {
+		n := e.Name()
+		if !strings.HasSuffix(n, ".go") || strings.HasSuffix(n, "_test.go") {
+			continue
+		}
+		p := filepath.Join(dir, n)
+		f, err := parser.ParseFile(fset, p, nil, parser.ParseComments)
+		if err != nil {
+			return nil, nil, err
+		}
+		files[p] = f
+		list = append(list, f)
+	}
+	info := &types.Info{Types: map[ast.Expr]types.TypeAndValue{}}
+	conf := types.Config{Importer: imp, Error: func(error) {}}
+	if _, err := conf.Check(dir, fset, list, info); err != nil {
+		// keep going with partial information: untyped ranges simply stay as they are
+		fmt.Fprintln(os.Stderr, "instr: type check of", dir, "reported:", err)
+	}
+	return files, info, nil
+}
+
 func main() {
 	out := flag.String("out", "", "output directory")
 	stmt := flag.Bool("stmt", false, "insert a yield before every statement")
@@ -459,9 +593,52 @@ func main() {
 		os.Exit(2)
 	}
 	overlay := map[string]string{}
+	// files prefixed with "maponly:" get only the sorted-map-range rewrite (no sync/channel shims, no yields)
+	type target struct {
+		path    string
+		mapOnly bool
+	}
+	var targets []target
+	dirs := map[string]bool{}
+	var pkgs []string
+	for _, a := range flag.Args() {
+		t := target{path: a}
+		if strings.HasPrefix(a, "maponly:") {
+			t = target{path: strings.TrimPrefix(a, "maponly:"), mapOnly: true}
+		}
+		targets = append(targets, t)
+		d := filepath.Dir(t.path)
+		if strings.HasPrefix(d, "/repo/internal/") && !dirs[d] {
+			dirs[d] = true
+			pkgs = append(pkgs, "./"+strings.TrimPrefix(d, "/repo/"))
+		}
+	}
+	var imp types.Importer
 	fset := token.NewFileSet()
-	for _, path := range flag.Args() {
-		src, err := instrument(fset, path, *stmt)
+	if len(pkgs) > 0 {
+		var err error
+		imp, fset, err = exportLookup("/repo", pkgs)
+		if err != nil {
+			fmt.Fprintln(os.Stderr, "instr:", err)
+			os.Exit(1)
+		}
+	}
+	parsed := map[string]*ast.File{}
+	infos := map[string]*types.Info{}
+	for d := range dirs {
+		files, info, err := typeCheckDir(fset, imp, d)
+		if err != nil {
+			fmt.Fprintln(os.Stderr, "instr:", err)
+			os.Exit(1)
+		}
+		for p, f := range files {
+			parsed[p] = f
+			infos[p] = info
+		}
+	}
+	for _, t := range targets {
+		path := t.path
+		src, err := instrument(fset, path, *stmt && !t.mapOnly, t.mapOnly, parsed[path], infos[path])
 		if err != nil {
 			fmt.Fprintln(os.Stderr, "instr:", err)
 			os.Exit(1)
